@@ -781,3 +781,98 @@ def _rec_label(R, n):
         gd = R.group_guard(var.targets[0].id, "sub_element", n)
         side = {True: "+sub", False: "-sub", None: ""}[gd]
     return rx + side
+
+
+@rule(P, "D18.10", "T-CASE", floor=8)
+def d18_10(ctx):
+    """Upper- and lower-case spellings of an address give the same record.  The address patterns are case-insensitive, so for
+    every record of parse_tag the fields and the tests that select the record are folded twice - every letter group bound
+    to its upper-case and to its lower-case spelling (digit groups to a fixed witness, optional groups as the dominating
+    group tests dictate) - and must agree (the echoed address text excepted)."""
+    import copy
+    import itertools
+
+    pt = ctx.model.func(f"{SLC}:parse_tag")
+    R = _Records(ctx, pt)
+    rx_nodes = _regexes(ctx)
+    insensitive = {name for name, (pat, node) in rx_nodes.items() if any("IGNORECASE" in src(a) or src(a).endswith("re.I") for a in list(node.args[1:]) + [k.value for k in node.keywords])}
+
+    def witness_env(rx, ret, case):
+        env = {}
+        for g_, shape in R.regexes.get(rx, {}).items():
+            guard = None
+            for var in {a.targets[0].id for a in R.assigns if isinstance(a.value, ast.Call) and isinstance(a.value.func, ast.Attribute) and atom_name(a.value.func.value) == rx}:
+                guard = R.group_guard(var, g_, ret) if guard is None else guard
+            if guard is False:
+                env[g_] = [None]
+            elif shape["digits"]:
+                env[g_] = ["1" if shape["digits"][0] <= 1 else "1" * shape["digits"][0]]
+            elif shape["alts"]:
+                env[g_] = [case(a) for a in shape["alts"]]
+            else:
+                env[g_] = [UNKNOWN]
+        return env
+
+    class Sub(ast.NodeTransformer):
+        def __init__(self, w, line, depth=0):
+            self.w, self.line, self.depth, self.unknown = w, line, depth, False
+
+        def visit_Call(self, n):
+            if _Records._is_group(n):
+                g_ = n.args[0].value
+                if g_ in self.w and self.w[g_] is not UNKNOWN:
+                    return ast.copy_location(ast.Constant(self.w[g_]), n)
+                self.unknown = True
+                return n
+            return self.generic_visit(n)
+
+        def visit_Name(self, n):
+            if isinstance(n.ctx, ast.Load) and self.depth < 6:
+                a = R.reaching(n.id, self.line)
+                if a is not None and not (isinstance(a.value, ast.Call) and isinstance(a.value.func, ast.Attribute) and a.value.func.attr in ("fullmatch", "match", "search")):
+                    s2 = Sub(self.w, a.lineno, self.depth + 1)
+                    r = s2.visit(copy.deepcopy(a.value))
+                    self.unknown = self.unknown or s2.unknown
+                    return r
+            return n
+
+    def fold(e, w, line):
+        s_ = Sub(w, line)
+        e2 = ast.fix_missing_locations(s_.visit(copy.deepcopy(e)))
+        if s_.unknown:
+            return UNKNOWN
+        return ctx.folder.eval(e2, pt.module)
+
+    n_checked = 0
+    for n, rec in R.records():
+        label = _rec_label(R, n)
+        rx = label.replace("+sub", "").replace("-sub", "")
+        key = ckey(pt, f"case@{label}")
+        if rx not in insensitive:
+            ctx.ok(key, n.ast, "pattern is case-sensitive: only one spelling reaches this record")
+            continue
+        up, lo = witness_env(rx, n, str.upper), witness_env(rx, n, str.lower)
+        groups = sorted(up)
+        diffs, folded = [], 0
+        for combo in itertools.islice(itertools.product(*[range(len(up[g_])) for g_ in groups]), 64):
+            wu = {g_: up[g_][i] for g_, i in zip(groups, combo)}
+            wl = {g_: lo[g_][i] for g_, i in zip(groups, combo)}
+            if wu == wl:
+                continue
+            items = [(ctx.folder.eval(k, pt.module), v) for k, v in zip(n.ast.value.keys, n.ast.value.values) if k is not None]
+            tests = [(f"test `{src(t.ast)[:50]}`", t.ast) for t in R.g.nodes if t.kind == "test" and t.ast is not None and any(R.g.branch_dominates(t, br, n) for br in (True, False))]
+            for name, e in items + tests:
+                if name == "tag":
+                    continue
+                a, b = fold(e, wu, n.ast.lineno), fold(e, wl, n.ast.lineno)
+                if a is UNKNOWN or b is UNKNOWN:
+                    continue
+                folded += 1
+                if a != b:
+                    diffs.append(f"{name}: {a!r} for {''.join(str(wu[g_]) for g_ in groups if isinstance(wu[g_], str) and wu[g_].isalpha())} but {b!r} for {''.join(str(wl[g_]) for g_ in groups if isinstance(wl[g_], str) and wl[g_].isalpha())}")
+        if not folded:
+            ctx.undecided(key, n.ast, "no field of this record could be folded on case witnesses")
+            continue
+        n_checked += 1
+        ctx.check(not diffs, key, n.ast, f"{folded} field/test evaluations agree between upper- and lower-case spellings",
+                  f"the record depends on the letter case of the address although {rx} is case-insensitive: {sorted(set(diffs))[:3]} - the lower-case spelling addresses a different file / element", pattern=rx)
